@@ -1908,16 +1908,39 @@ func (c *Ctx) ruleM6() {
 // ---------------------------------------------------------------------------
 // L4
 
-// fetchLength: the constant FetchOptions.Length of one NewFromEntryHash call (the address of
-// a local holding a constant, or of a package variable initialised to a constant and never
-// reassigned); ok=false when it is anything else (a parameter, a computed amount).
-func (c *Ctx) fetchLength(call ssa.CallInstruction) (int64, bool) {
+// fetchOptField: the value of one field of the FetchOptions handed to a fetch. When the options
+// are built by a helper that stores one of its parameters in the field, the value is what the
+// call site hands in for that parameter.
+func (c *Ctx) fetchOptField(call ssa.CallInstruction, field string) (ssa.Value, bool) {
 	for _, a := range call.Common().Args {
 		p, ok := a.Type().(*types.Pointer)
 		if !ok || !strings.HasSuffix(typeStr(p.Elem()), "FetchOptions") {
 			continue
 		}
-		l, ok := structLitFields(a)["Length"]
+		l, ok := structLitFields(a)[field]
+		if !ok {
+			return nil, false
+		}
+		if prm, isParam := l.(*ssa.Parameter); isParam {
+			if hc, isCall := a.(*ssa.Call); isCall && hc.Call.StaticCallee() == prm.Parent() {
+				for i, q := range prm.Parent().Params {
+					if q == prm && i < len(hc.Call.Args) {
+						return hc.Call.Args[i], true
+					}
+				}
+			}
+		}
+		return l, true
+	}
+	return nil, false
+}
+
+// fetchLength: the constant FetchOptions.Length of one NewFromEntryHash call (the address of
+// a local holding a constant, or of a package variable initialised to a constant and never
+// reassigned); ok=false when it is anything else (a parameter, a computed amount).
+func (c *Ctx) fetchLength(call ssa.CallInstruction) (int64, bool) {
+	for range []int{0} {
+		l, ok := c.fetchOptField(call, "Length")
 		if !ok {
 			return 0, false
 		}
@@ -2376,16 +2399,7 @@ func (c *Ctx) ruleJ2() {
 			if calleeFull(call) != logMod+".NewFromEntryHash" {
 				return
 			}
-			var lenVal ssa.Value
-			for _, a := range call.Common().Args {
-				p, ok := a.Type().(*types.Pointer)
-				if !ok || !strings.HasSuffix(typeStr(p.Elem()), "FetchOptions") {
-					continue
-				}
-				if l, ok := structLitFields(a)["Length"]; ok {
-					lenVal = l
-				}
-			}
+			lenVal, _ := c.fetchOptField(call, "Length")
 			if lenVal == nil {
 				return
 			}
